@@ -49,7 +49,8 @@ def prepare_filtered(spinn_terms, budget):
     def f(structs, seed):
         keep = [s for s in structs if s.get("family") != "C11L" or s.get("term") in spinn_terms]
         # from the parameter family (C12) only the structures with an observation batch carrying observed equation parameters
-        keep = [s for s in keep if s.get("family") != "C12" or s.get("obsk")]
+        # ... or heterogeneous parameters (the residual must be evaluated with the user's maps applied to the caller's parameters)
+        keep = [s for s in keep if s.get("family") != "C12" or s.get("obsk") or s.get("hetero") != "none"]
         sp = [s for s in keep if s.get("family") in ("C11L", "C12")]           # outside the budget
         rest = [s for s in keep if s.get("family") not in ("C11L", "C12")]
         return inner(rest, seed) + [lossrec.expand(s, seed) for s in sp]
